@@ -142,9 +142,9 @@ structure Adv (p : Params) (s s' : S) : Prop where
 
 theorem Adv.refl (p : Params) (s : S) : Adv p s s := ⟨Nat.le_refl _, Nat.le_refl _, Or.inl rfl, fun h => ⟨h, rfl⟩⟩
 
-theorem potential_forceFail (s : S) : potential (forceFail s) ≤ potential s := by
+theorem potential_forceFail (w : WfSt) (s : S) : potential (forceFail w s) ≤ potential s := by
   simp only [potential, forceFail, contJobs]
-  split <;> rename_i h <;> simp [h]
+  split <;> simp
 
 theorem completeTask_adv (p : Params) (s : S) (st : TSt) (m : Msg) : Adv p s (completeTask p s st m) := by
   simp only [completeTask]
@@ -156,7 +156,7 @@ theorem completeTask_adv (p : Params) (s : S) (st : TSt) (m : Msg) : Adv p s (co
       rw [hr] at h; simp only [R.state] at h
       refine ⟨?_, by simpa [forceFail] using h.mono, by simpa [forceFail] using h.bound,
               fun hh => ⟨by simpa [forceFail, h.pn] using hh, by simp [forceFail, h.wb]⟩⟩
-      have hp := potential_forceFail s2
+      have hp := potential_forceFail s.wf s2
       have : potential s2 + s.retryNo = potential s + s2.retryNo := by
         have := h.jobs; have := h.acts
         simp only [potential, h.pn, h.pe, h.wf, contJobs] at *
@@ -442,7 +442,7 @@ theorem launch_fields (p : Params) (s0 : S) (hsk : s0.wbSkip = false) (hpn : s0.
   | raise s2 =>
     rw [hrr] at hb hr
     simp only [R.state, willRun_raise] at hb hr
-    have hf := potential_forceFail s2
+    have hf := potential_forceFail s0.wf s2
     refine ⟨?_, by simp [forceFail, hr.rn], by simp [forceFail, hr.pn, hpn]⟩
     simp only [potential, pausedN, contJobs, hr.acts, hr.pn, hr.pe, b2n, hpn] at *
     simp at *
